@@ -114,6 +114,10 @@ func (ch c19) server(cfg c19cfg) *hs.Env {
 	}
 	if cfg.Auth {
 		opts = append(opts, wire.SessionAuthStrategy(wire.ClearTextPassword(func(ctx context.Context, db, user, pw string) (context.Context, bool, error) {
+			if pw == "late-failure" {
+				// the password matched but a later step of the validator failed: not a successful authentication
+				return ctx, true, errors.New("validator: role lookup failed after the password matched")
+			}
 			return ctx, true, nil
 		})))
 	}
@@ -255,12 +259,25 @@ func (ch c19) runConn(c *core.Ctx, env *hs.Env, cfg c19cfg, ending string, rng *
 	user, db := st.who()
 	cl.C.Send(pg.Startup([][2]string{{"options", ""}, {"user", user}, {"application_name", ""}, {"database", db}}))
 	cl.C.Quiesce()
+	authFails := cfg.Auth && rng.Intn(6) == 0
 	if cfg.Auth {
-		cl.C.Send(pg.Password("x"))
+		if authFails {
+			cl.C.Send(pg.Password("late-failure"))
+		} else {
+			cl.C.Send(pg.Password("x"))
+		}
 		cl.C.Quiesce()
 	}
 	closed, _ := cl.C.Quiesce()
 	if hangCheck(c, cl, cs) {
+		return
+	}
+	if authFails {
+		c.Count("connections_whose_authentication_failed", 1)
+		c.Eval(fmt.Sprintf("auth fails n=%d", cfg.N), true)
+		if k := replyKinds(cl.C.Out()); len(st.mwOrder) != 0 || !closed || strings.Contains(k, "Z") {
+			viol("middleware-before-auth", "session middlewares ran (or the connection was served) although authentication did not succeed", fmt.Sprintf("middlewares run: %v, closed=%v, reply %s", st.mwOrder, closed, trim(k, 200)))
+		}
 		return
 	}
 	out := cl.C.Out()
